@@ -340,6 +340,26 @@ impl Prop for C18 {
                 _ => {}
             }
         }
+        // (b'') the detection chains (auto-detect, legacy detection) derive per-variant settings from the caller's: run against a server
+        // that only speaks the last legacy variant, one that speaks none, and generic dispatch of the auto-detecting definition
+        // (a variant that stays silent is retried `retries` times: only ordinary retry counts terminate here)
+        for entry in [Entry::McAuto, Entry::McLegacy, Entry::Generic { game: "minecraft".into(), extra: None }] {
+            if case.retries > 2 {
+                break;
+            }
+            for speaks_last in [true, false] {
+                let mut st = state_for_entry(&Entry::McLegacySpecific(2), 1);
+                if let crate::models::family::FamState::Mc(spec) = &mut st {
+                    spec.speaks = if speaks_last { 0b10000 } else { 0 };
+                    spec.close_on_unknown = true;
+                }
+                let run = run_scripted(st.responder(), || entry.call_full(&ip, Some(25565), Some(settings)).map(|_| ()));
+                if let Ended::Panic(p) = &run.ended {
+                    o.fail(format!("C18|query with accepted settings|panic|{}|{}", p.site(), p.class()), json!({"entry": entry.sig_name(), "settings": format!("{settings:?}"), "server": if speaks_last { "speaks beta 1.8 only" } else { "speaks no variant" }, "panic": p}));
+                    return o;
+                }
+            }
+        }
         // (a) real sockets, server answers at once; retries capped
         let capped = TimeoutSettings::new(settings.get_read(), settings.get_write(), settings.get_connect(), settings.get_retries().min(1)).ok();
         let lo = IpAddr::V4(Ipv4Addr::LOCALHOST);
